@@ -107,6 +107,12 @@ CHECKS["C05"] = dict(
   text="MVCC histories come from crashing two writers at every combination of <= 2 store RPCs over committed base data (pending, committed-primary-unresolved-secondaries, rolled back, pessimistic, async-commit / 1PC locks, locks of later transactions); on each distinct history every snapshot timestamp between its events is read through point get, batch get of every subset, forward and reverse scans over every bound pair with batch sizes 2 and 3 and key-only, repeated on the warm snapshot, after SetSnapshotTS to every other timestamp and back, and with a region split before each of the first RPCs; every answer equals the MVCC truth.",
   note=TXN_NOTE + " Unbounded reverse scans are the recorded known finding keyed under C01; on unistore reverse / unbounded scans are left out (store-side artefacts).")
 
+CHECKS["C16"] = dict(
+  engine="parksched", category="model_checking", design="5/C16",
+  technique="exhaustive enumeration of pipelined-transaction programs (set/delete/get/batch-get/flush/flush-wait, commit or rollback) x layouts with flushed keys on region borders, flush completion interleaved with the following calls under a preemption bound (thorough: a lost flush RPC), on the real pipelined KVTxn over unistore",
+  text="Every program to the depth bound ending in commit or rollback on three layouts; every call is a scheduling point so that a running flush completes before or after the next calls; reads must return the latest program-order write at any tier, each mutation is part of exactly one flush generation, generations increase with at most one in flight, and after commit / rollback and drain every flushed key has the primary's outcome and no lock of the transaction is left.",
+  note=TXN_NOTE + " unistore is the only backend (the in-repo mock has no Flush / BufferBatchGet); flush and resolve concurrency 1. The memory-level PipelinedMemDB harness of DESIGN (a) is subsumed by driving the real transaction.")
+
 PENDING = {}
 for p in ALL:
     if p not in CHECKS:
@@ -126,7 +132,7 @@ def main():
      "engines": [
       {"name": "enum", "path": "harness/c19", "serves_properties": ["C15", "C19"], "kind_free_text": "bounded exhaustive input enumeration against laws/reference decoders"},
       {"name": "envx", "path": "harness/c10", "serves_properties": ["C10"], "kind_free_text": "deviation-bounded enumeration of environment answers (fault scripts) on sequential code"},
-      {"name": "parksched", "path": "rt/sched", "serves_properties": ["C01", "C02", "C03", "C04", "C05", "C06", "C13", "C14"], "kind_free_text": "controlled scheduler for real goroutines parked at seam points + deviation-bounded stateless DFS (preemption / fault budgets), replay by event identity, sharded over worker processes"},
+      {"name": "parksched", "path": "rt/sched", "serves_properties": ["C01", "C02", "C03", "C04", "C05", "C06", "C13", "C14", "C16"], "kind_free_text": "controlled scheduler for real goroutines parked at seam points + deviation-bounded stateless DFS (preemption / fault budgets), replay by event identity, sharded over worker processes"},
       {"name": "seqx", "path": "harness/c17", "serves_properties": ["C07", "C08", "C09", "C11", "C12", "C17", "C20"], "kind_free_text": "explicit-state BFS over operation sequences of real objects against a reference model"},
      ],
      "checks": [],
